@@ -11,7 +11,7 @@
      (inputs …) (args …): see below.
    (spec <line>) selects the declarative oracle. *)
 From Coq Require Import List NArith Bool String.
-From Verif Require Import common.Sexp c16.Stream c16.StreamPos c16.Codec c16.Inputs c16.InputsSpec c16.Args c16.Fromstream.
+From Verif Require Import common.Sexp c16.Stream c16.StreamPos c16.Codec c16.Inputs c16.InputsSpec c16.Args c16.Fromstream c16.Lex.
 Import ListNotations.
 Open Scope N_scope.
 
@@ -109,7 +109,7 @@ Definition model_inputs (fuel : nat) (m : mode) (null : bool) (q : qkind) (stdin
 
 Definition spec_inputs (fuel : nat) (m : mode) (null : bool) (q : qkind) (stdin : fdata)
            (srcs : list (fsrc fdata)) : option (list out) :=
-  let all := all_outs m stdin srcs in
+  let all := all_outs_fast m stdin srcs in   (* = all_outs: InputsProofs.all_outs_fast_spec *)
   let all' := if m_slurp m then (if m_raw m then [slurpraw_spec all []] else [slurp_spec all []]) else all in
   match null, q with
   | false, QId => Some all'
@@ -250,7 +250,7 @@ Definition run_sexp (fuel : nat) (spec : bool) (e : sexp) : sexp :=
   end.
 
 Definition run_line (l : list N) : list N :=
-  match parse l with
+  match parse_fast l with            (* = Sexp.parse l: Lex.parse_fast_spec *)
   | Some (SList [k; e]) =>
       if atom_is "spec" k then print (run_sexp (S (S (List.length l))) true e)
       else print (run_sexp (S (S (List.length l))) false (SList [k; e]))
